@@ -39,6 +39,8 @@ def to_text(files, path, first_id=0):
                 steps += 1
                 if op in ("AddMuH", "Trivial"): f.write(op + " " + " ".join(str(v) for v in o["mu"]) + "\n")
                 elif op == "AddMuIntH": f.write("%s %d\n" % (op, o["v"]))
+                elif op == "EncInt": f.write("%s %d %d\n" % (op, o["v"], o["alog"]))
+                elif op == "EncPoly": f.write(op + " " + " ".join(str(v) for v in o["mu"]) + " %d\n" % o["alog"])
                 elif op == "MulXaiM1": f.write("%s %d\n" % (op, o["x"]))
                 elif op == "Decrypt": f.write("%s %d\n" % (op, o["ms"]))          # (the expected plaintext stays behind)
                 elif op == "Load": f.write("Load %d %d " % (o["k"], o["tag"]) + " ".join(str(v) for r in o["rows"] for c in r for v in c) + "\n")
